@@ -126,7 +126,8 @@ Proof.
   assert (Up : forall es, AllocsBelow (h_size h) es -> AllocsBelow (h_size h + 1) es).
   { intros es H. eapply Forall_impl; [|exact H]. intros e [n [-> Hn]]. eexists; split; eauto; lia. }
   destruct (parse_bf gfixed (h_bf h)) as [|es'|es' b]; [contradiction| |].
-  - apply Forall_app; split; auto. eapply allocs_ok; [|exact Hp]; auto.
+  - change (EffsOk t ([EAlloc (h_size h)] ++ es')).
+    apply Forall_app; split; auto. eapply allocs_ok; [|exact Hp]; auto.
   - destruct Hp as [Hp1 Hp2].
     assert (E1 : EffsOk t ([EAlloc (h_size h)] ++ es')).
     { apply Forall_app; split; auto. eapply allocs_ok; [|exact Hp1]; auto. }
@@ -138,7 +139,7 @@ Proof.
       pose proof (parse_bf_fixed r (h_size h) Hf1 Es) as Hq. destruct (parse_bf gfixed r) as [|e2|e2 b2]; [contradiction| |].
       - do 2 eexists; split; [reflexivity|]. apply Forall_app; split; auto. eapply allocs_ok; [|exact Hq]; auto.
       - apply IH; auto. apply Forall_app; split; auto. eapply allocs_ok; [|apply Hq]; auto. }
-    destruct (R (h_rb h) _ Hw2 E1) as [es2 [ok [X2 E2]]]. rewrite X2.
+    destruct (R (h_rb h) _ Hw2 E1) as [es2 [ok [X2 E2]]]. cbn [app] in X2. rewrite X2.
     destruct ok; [|exact E2]. destruct (h_known h); simpl; [|exact E2].
     pose proof (add_peer_good s q b (h_dup h) es2 HI E2 Hp2) as Ha.
     destruct (add_peer gfixed t s q b (h_dup h) es2); auto. now subst.
@@ -154,7 +155,7 @@ Proof.
     + eauto.
     + destruct H; eauto.
   - destruct (step_good t WF s q m HI) as [a [E [G1 G2]]]. rewrite E. eauto.
-  - destruct (hangup_good t WF s q HI) as [a [E [G1 G2]]]. rewrite E. eauto.
+  - destruct (hangup_good t s q HI) as [a [E [G1 G2]]]. rewrite E. eauto.
 Qed.
 
 Theorem run_events_good : forall evs s, Inv t s -> forallb wf_event evs = true ->
@@ -234,3 +235,6 @@ Theorem sends_in_bounds : forall t s evs s' es q r, wf_torrent t = true -> inv t
 Proof.
   intros t s evs s' es q r WF HI Hw E Hin. apply (effects_ok t s evs s' es _ WF HI Hw E Hin).
 Qed.
+
+Lemma init_inv_b : forall t have, wf_torrent t = true -> zlen have = t_n t -> inv t (init t have) = true.
+Proof. intros. apply inv_iff. now apply init_inv. Qed.
